@@ -22,15 +22,43 @@ MANIFEST = dict(
     technique='Coq span-naturality theorem on the checker model (+ parser layout theorem) + byte comparison of the real binary on re-laid-out grammars')
 
 
+def protected_mask(text):
+    """True at every position inside a description ("..." with \\-escapes), a command or a nonterminal name."""
+    mask = [False] * (len(text) + 1)
+    i, n = 0, len(text)
+    while i < n:
+        if text.startswith('{{{', i):
+            j = text.find('}}}', i)
+            j = n if j < 0 else j + 3
+        elif text[i] == '"':
+            j = i + 1
+            while j < n and text[j] != '"':
+                j += 2 if text[j] == '\\' else 1
+            j += 1
+        elif text[i] == '<':
+            j = text.find('>', i)
+            j = n if j < 0 else j + 1
+        else:
+            i += 1
+            continue
+        for k in range(i, min(j, n)):
+            mask[k] = True
+        i = j
+    return mask
+
+
 def extra_parens(stmts, r):
     out = []
     for s in stmts:
         if not s.startswith('<') and r.random() < 0.4:
             sp = s.index(' ')
             s = s[:sp + 1] + '(' + s[sp + 1:-1] + ');'
-        def wrap(m, s=s):
-            inside_quotes = s.count('"', 0, m.start()) % 2 == 1
-            return '(' + m.group(0) + ')' if (not inside_quotes and r.random() < 0.3) else m.group(0)
+        protected = protected_mask(s)
+
+        def wrap(m, protected=protected):
+            if protected[m.start()] or r.random() >= 0.3:
+                return m.group(0)
+            return '(' + m.group(0) + ')'
         s = re.sub(r'(?<![\w=<@-])l\d+(?![\w=>])', wrap, s)
         out.append(s)
     return out
